@@ -83,6 +83,9 @@ type event struct {
 func (e event) String() string {
 	switch e.kind {
 	case "edit":
+		if e.dt < 0 {
+			return fmt.Sprintf("edit(%q, mtime%v)", e.content, e.dt)
+		}
 		return fmt.Sprintf("edit(%q, mtime+%v)", e.content, e.dt)
 	case "clock":
 		return "clock+3s"
@@ -99,7 +102,7 @@ func tracking(c *evid.Ctx, depth int) {
 	contents := []string{"k1=a\n", "k1=b\n", "k1=a\nk2=x\n", "# only a comment\n", "k2 = y\nk1=c"}
 	var events []event
 	for _, ct := range contents {
-		for _, dt := range []time.Duration{time.Millisecond, 500 * time.Millisecond, time.Second, 4 * time.Second} {
+		for _, dt := range []time.Duration{time.Millisecond, 500 * time.Millisecond, time.Second, 4 * time.Second, -30 * time.Minute} { // the last: a file restored or moved into place with an OLDER modification time
 			events = append(events, event{"edit", ct, dt})
 		}
 	}
@@ -140,7 +143,7 @@ func tracking(c *evid.Ctx, depth int) {
 		want := parseProps(content)
 		for k, v := range want {
 			if got := fc.GetValue(k); got != strings.TrimSpace(v) {
-				c.Violation("C18:tracking:stale", fmt.Sprintf("after %v and two further polls the file says %s=%q but the configuration returns %q (file mtime %s, edits within one second of the loaded version are never picked up)", desc, k, v, got, mt.Format("15:04:05.000")),
+				c.Violation("C18:tracking:stale", fmt.Sprintf("after %v and two further polls the file says %s=%q but the configuration returns %q (file mtime %s: the content on disk was never loaded)", desc, k, v, got, mt.Format("15:04:05.000")),
 					map[string]interface{}{"engine": "E2", "history": desc, "file": content, "key": k, "got": got})
 				return
 			}
